@@ -6,6 +6,26 @@ import os
 VERIF = os.path.dirname(os.path.dirname(os.path.abspath(__file__)))
 
 CLAIMED = {
+    "C01": dict(cat="exploration", design="§5 C01", engine="glue",
+                text="Differential runtime monitoring of generated glue: a generated corpus of traits (one per argument/return shape, multi-method, attribute, consuming, int_result traits) is compiled with the real macros; the same generic driver runs seeded call histories on the opaque object (Box/Mut/Ref/CArcSome, with/without context) and directly on the implementor, comparing return digests, the implementor's event log and every instance state after each call. Native, Miri (by-ref subset), ASan.",
+                note="Trusts the recording implementor and digest functions in /verif/gluert; grammar limited to shapes cglue accepts (calibrated on the unchanged tree).",
+                tech="runtime monitoring: differential execution of generated programs + event-log comparison"),
+    "C02": dict(cat="exploration", design="§5 C02", engine="glue",
+                text="The implementor records content digest, length and address of every argument it receives and returns state-derived values out of its own storage; the caller compares both directions against what it sent and against a direct call, including writes through &mut and callback/iterator item sequences. Native, Miri, ASan.",
+                note="Trusts the digest functions; addresses compared as integers.",
+                tech="runtime monitoring: argument/return digests and addresses recorded on both sides"),
+    "C06": dict(cat="exploration", design="§5 C06", engine="glue",
+                text="Generated straight-line lifecycle programs with a generator-side ownership model; a drop registry and a tracking allocator observe every instance and block. Native, Miri (no by-value crossings), ASan.",
+                note="Trusts the generator's ownership model and the Tracked registry.",
+                tech="runtime monitoring: drop registry + tracking allocator over generated lifecycle programs"),
+    "C07": dict(cat="exploration", design="§5 C07", engine="glue",
+                text="Context reference count compared with a model of live context-holding objects after every step of generated lifecycle programs and after the last drop; one open finding (borrowed-child context leak) keyed by exact signature.",
+                note="Trusts Arc::strong_count and the generator's model.",
+                tech="runtime monitoring: reference-count oracle against a model"),
+    "C08": dict(cat="exploration", design="§5 C08", engine="glue",
+                text="Exhaustive enumeration of cast sites (enabled set x requested subset x operation x container) for two groups incl. aliased generic instantiations, each executed with dispatch and ownership oracles.",
+                note="Restricted to combinations cglue accepts at compile time.",
+                tech="runtime monitoring: exhaustive generated cast sites with event-log dispatch oracle"),
     "C10": dict(cat="exploration", design="§5 C10",
                 text="Model-based runtime monitoring: a sequential reference model of handle counts is stepped in lock-step with real CArc/CArcSome pools over bounded-exhaustive and seeded histories, forged handles with counting clone/drop stubs observe which functions the library calls, and concurrent workloads run under Miri's data-race detector (one schedule seed per process) and TSan. Held on the executions driven, not a proof.",
                 note="Trusts: Weak::strong_count as the real count; Miri with Stacked Borrows disabled; the tracking allocator and Tracked registry in /verif/vmon.",
@@ -67,6 +87,8 @@ def main():
                    baseline_off_cmd="cd /repo && cargo test --workspace --no-fail-fast --offline",
                    source_commits=[], add_only=True),
         engines=[
+            dict(name="glue", path="glue/", serves_properties=["C01", "C02", "C06", "C07", "C08", "C13"],
+                 kind_free_text="python generators of Rust programs using the real cglue macros (trait corpus, lifecycle programs) + gluert support crate; built and run natively, under Miri and ASan"),
             dict(name="rt", path="rt/", serves_properties=["C10", "C11", "C12", "C13", "C14", "C15", "C19"],
                  kind_free_text="Rust harness binary driving the runtime library under native/Miri/ASan/TSan/valgrind with monitors from vmon/"),
         ],
